@@ -6,7 +6,7 @@
     an earlier call, and every oracle answer used meets the contract [oracle_ok]; [Inv c s0] holds of the state after
     initialize when the final time is not earlier than the initial time ([Inv_init]). *)
 From Coq Require Import QArith List Bool Reals.
-Require Import Num C19_Model C19_Proofs C19_T1.
+Require Import Num C19_Model C19_Proofs C19_T1 C19_CPodes C19_CPodes_Proofs.
 Import ListNotations.
 Local Open Scope Q_scope.
 
@@ -97,3 +97,35 @@ Print Assumptions C19_oracle_contract_used_is_what_takeOneStep_ensures_partial.
 Theorem C19_select_t1_no_room (t0 tMax h:R) : (0 < h)%R -> (tMax <= t0)%R -> fst (select_t1 ROps t0 tMax h) = tMax.
 Proof. exact (select_t1_no_room t0 tMax h). Qed.
 Print Assumptions C19_select_t1_no_room.
+
+(** ------------------------------------------------------------------------------------------
+    second model: CPodesIntegratorRep::stepTo (C19/C19_CPodes.v) *)
+(** EndOfSimulation puts the wrapper into FinalTimeHasBeenReturned and every later stepTo is refused, whatever
+    reinitialize did in between *)
+Theorem C19_cp_end_of_simulation_then_refused c s report sched orc s' rest us :
+  stepToC c s report sched orc = COk (EndOfSimulation, s', rest, us) ->
+  c_comm s' = FinalReturned /\
+  forall l t r2 sc2 orc2, stepToC c (reinitC s' l t) r2 sc2 orc2 = CRefused /\ stepToC c s' r2 sc2 orc2 = CRefused.
+Proof. exact (cp_end_of_simulation_then_refused c s report sched orc s' rest us). Qed.
+Print Assumptions C19_cp_end_of_simulation_then_refused.
+
+(** for calls in which CPODES reports no root: a scheduled-event stop is exactly at the scheduled time, a report stop
+    exactly at the report time (or it is the first encounter of the stop time), and TimeHasAdvanced / stop-time returns
+    are strictly before both pending times.  Any state, any oracle answers.  (With a root return the times compared
+    are tLo while the advanced state is at tHi; not covered.) *)
+Theorem C19_cp_stops_exact_and_not_late_partial c s report sched orc st s' rest us :
+  stepToC c s report sched orc = COk (st, s', rest, us) ->
+  c_pending s <> Some CRoot -> Forall nonroot orc ->
+  st = StartOfContinuousInterval \/ st = ReachedStepLimit \/ cret_ok c report sched st s'.
+Proof. exact (cp_stops_exact_and_not_late_partial c s report sched orc st s' rest us). Qed.
+Print Assumptions C19_cp_stops_exact_and_not_late_partial.
+
+(** DESIGN 7.18 (b): the CPodes wrapper lets the advanced state pass a pending scheduled event *)
+Theorem C19_cp_advanced_never_passes_sched_refuted :
+  exists c s report sched orc st s' rest us,
+    stepToC c (init_stateC 0 None) 0 1 [] = COk (StartOfContinuousInterval, s, [], []) /\
+    tStateC s <= report /\ tStateC s <= sched /\
+    stepToC c s report sched orc = COk (st, s', rest, us) /\ forallb cp_okb us = true /\
+    st = ReachedReportTime /\ tStateC s' == report /\ sched < c_tAdv s'.
+Proof. exact cp_advanced_never_passes_sched_refuted. Qed.
+Print Assumptions C19_cp_advanced_never_passes_sched_refuted.
